@@ -145,3 +145,13 @@ pub proof fn lemma_first_char_ascii(t: Seq<char>)
 pub fn verif_chars_nth(s: &str, n: usize) -> (r: Option<char>)
     ensures r == (if n < s@.len() { Some(s@[n as int]) } else { None::<char> })
 { s.chars().nth(n) }
+
+/// Rule E13 shim for `&s.as_bytes()[a..=b]` (`str::as_bytes`: the UTF-8 bytes; inclusive range index
+/// of a slice — std: panics if `b == usize::MAX`, `a > b + 1` or `b + 1 > len` => preconditions)
+#[verifier::external_body]
+pub fn verif_bytes_incl<'a>(s: &'a str, a: usize, b: usize) -> (r: &'a [u8])
+    requires
+        b < utf8(s@).len() && a <= b + 1, // [std.slice_index.pre.in_bounds]
+    ensures
+        r@ == utf8(s@).subrange(a as int, b + 1),
+{ &s.as_bytes()[a..=b] }
